@@ -2,6 +2,7 @@ import Fdo.Cbor.TypedFrag
 import Fdo.Cbor.Proofs
 import Fdo.Cbor.Fuel
 import Fdo.Cbor.HdrProofs
+import Fdo.Cbor.AnyProofs
 /-
 decode ∘ encode = id for the typed codec on the fragment of `TypedFrag.lean`.
 -/
@@ -93,16 +94,12 @@ def flatM (es : List (Bytes × Bytes)) : Bytes := (es.map fun p => p.1 ++ p.2).f
 theorem keyEq_eq (k1 k2 : Val) (h : k1.keyEq k2 = true) : k1 = k2 := by
   cases k1 <;> cases k2 <;> simp [Val.keyEq] at h <;> simp [h]
 
-/-- no value of a type in the fragment is an `interface{}` value -/
-theorem conf_not_any (ok : CertOracle) : ∀ (g d : Nat) (s : Schema) (a : AnyVal), s.inFragment = true → conf ok g d s (.any a) = false := by
-  intro g
-  induction g with
-  | zero => intro d s a _; simp [conf]
-  | succ g ih =>
-    intro d s a hs
-    cases s <;> simp [Schema.inFragment] at hs <;> simp [conf, labelOK]
-    case bstr e => exact ih _ e a hs
-    case wrap e => exact ih _ e a hs
+/-- no map key of the fragment is an `interface{}` value -/
+theorem conf_key_not_any (ok : CertOracle) (g d : Nat) (ks : Schema) (a : AnyVal) (hk : ks.scalarKey = true) :
+    conf ok g d ks (.any a) = false := by
+  cases g with
+  | zero => simp [conf]
+  | succ g => cases ks <;> simp [Schema.scalarKey] at hk <;> simp [conf, labelOK]
 
 /-- scalar keys encode the same with any fuel -/
 theorem encodeS_scalarKey (g : Nat) (ks : Schema) (k : Val) (h : ks.scalarKey = true) : encodeS (g + 1) ks k = encodeS 1 ks k := by
@@ -169,7 +166,7 @@ theorem sorted_facts (ks vs : Schema) (hk : ks.scalarKey = true) : ∀ (g : Nat)
 /-- the typed round trip of the pairs of a map -/
 def RtM (ok : CertOracle) (g : Nat) : Prop :=
   ∀ (ks vs : Schema) (ps : List (Val × Val)) (es : List (Bytes × Bytes)) (r : Bytes) (d F : Nat) (acc : List (Val × Val)),
-    ks.inFragment = true → vs.inFragment = true → encodeMapPairs g ks vs ps = some es → confPairs ok g d ks vs ps = true →
+    ks.inFragment = true → ks.scalarKey = true → vs.inFragment = true → encodeMapPairs g ks vs ps = some es → confPairs ok g d ks vs ps = true →
     (flatM es).length < 18446744073709551616 → 2 * (flatM es).length + 2 + max ks.ptrDepth vs.ptrDepth ≤ F →
     (∀ p ∈ acc, ∀ q ∈ ps, p.1.keyEq q.1 = false) → ps.Pairwise (fun a b => a.1.keyEq b.1 = false) →
     decodeMapPairs ok F d ks vs ps.length acc (flatM es ++ r) = some (acc ++ ps, r)
@@ -280,6 +277,7 @@ theorem enc_pos (ok : CertOracle) : ∀ (g : Nat) (s : Schema) (v : Val) (b : By
     case text => cases v <;> simp [encodeS] at henc; subst henc; have := hh 3 ‹Bytes›.length; simp; omega
     case fixed n => cases v <;> simp [encodeS] at henc; subst henc; have := hh 2 ‹Bytes›.length; simp; omega
     case wrapBytes => cases v <;> simp [encodeS] at henc; subst henc; have := hh 2 ‹Bytes›.length; simp; omega
+    case any => cases v <;> simp [encodeS] at henc; subst henc; exact encodeAny_len_pos _
     case slice e =>
       cases v <;> simp [encodeS] at henc
       rename_i vs
@@ -790,6 +788,17 @@ theorem wS_step (ok : CertOracle) (g : Nat) (hS : WS ok g) (hL : WL ok g) (hF : 
       simp only [decode, List.append_assoc, hd, d1]
       have : ¬ (ps.length ≥ maxLen ∨ 2 * ps.length ≥ maxLen ∨ dr = 0) := by simp [maxLen] at hpl ⊢; omega
       simp [this]
+  | any =>
+    cases v <;> try (simp [encodeS] at henc; done)
+    rename_i a
+    simp [encodeS] at henc; subst henc
+    simp only [wconf] at hw
+    simp only [Schema.ptrDepth] at hFu
+    have h1 := decodeAny_encodeAny a [] dr (2 * (encodeAny a).length) hw (Nat.le_refl _)
+    simp only [List.append_nil] at h1
+    obtain ⟨x, hx⟩ := decodeAny_then_decode _ _ _ _ _ h1
+    have h2 := hx (F' + 1) (by omega)
+    exact ⟨x, by simpa using decode_append _ _ _ r _ _ h2⟩
   | _ => simp [Schema.inFragment] at hs
 
 theorem w_all (ok : CertOracle) (g : Nat) : WS ok g ∧ WL ok g ∧ WFld ok g ∧ WM ok g := by
@@ -1007,7 +1016,7 @@ theorem rtF_step (ok : CertOracle) (g : Nat) (hS : RtS ok g) (hF : RtF ok g) : R
               · omega
 
 theorem rtM_step (ok : CertOracle) (g : Nat) (hS : RtS ok g) (hM : RtM ok g) : RtM ok (g + 1) := by
-  intro ks vs ps es r d F acc hks hvs henc hconf hlen hFu hdis hpw
+  intro ks vs ps es r d F acc hks hsk hvs henc hconf hlen hFu hdis hpw
   cases ps with
   | nil =>
     simp [encodeMapPairs] at henc; subst henc
@@ -1043,11 +1052,11 @@ theorem rtM_step (ok : CertOracle) (g : Nat) (hS : RtS ok g) (hM : RtM ok g) : R
             rcases List.mem_append.mp hp with h | h
             · exact hdis p h q (by simp [hq])
             · simp at h; subst h; exact hk' q hq
-          have d3 := hM ks vs ps es' r d F' (acc ++ [(k, v)]) hks hvs h3 hconf.2 (by omega) (by omega) hdis' hpw'
+          have d3 := hM ks vs ps es' r d F' (acc ++ [(k, v)]) hks hsk hvs h3 hconf.2 (by omega) (by omega) hdis' hpw'
           -- the decoded key is not an interface value
           have hna : ∀ a', k ≠ .any a' := by
             intro a' he; subst he
-            have := conf_not_any ok g d ks a' hks
+            have := conf_key_not_any ok g d ks a' hsk
             rw [this] at hconf; simp at hconf
           have hok : (match k with | .any a' => a'.comparable | _ => true) = true := by
             cases k <;> simp
@@ -1381,12 +1390,20 @@ theorem rtS_step (ok : CertOracle) (g : Nat) (hS : RtS ok g) (hL : RtL ok g) (hF
       rw [hflat] at hlen hf ⊢
       simp only [List.length_append] at hlen hf
       have hp := encHead_length_pos 5 ps.length
-      have d1 := hM ks vs ps es r (d - 1) f' [] hs.1.1 hs.2 h1 hcp (by omega) (by omega) (by simp) hp2
+      have d1 := hM ks vs ps es r (d - 1) f' [] hs.1.1 hs.1.2 hs.2 h1 hcp (by omega) (by omega) (by simp) hp2
       obtain ⟨ai, hd, _⟩ := decHead_encHead28 5 ps.length (flatM es ++ r) (by omega) (by simp [maxLen] at hpl; omega)
       refine ⟨?_, by simp; omega⟩
       simp only [decodeS, List.append_assoc, hd, d1]
       have : ¬ (ps.length ≥ maxLen / 2 ∨ d = 0) := by omega
       simp [this]
+  | any =>
+    cases v <;> try (simp [encodeS] at henc; done)
+    rename_i a
+    simp [encodeS] at henc; subst henc
+    simp only [conf] at hconf
+    simp only [Schema.ptrDepth] at hf
+    refine ⟨?_, encodeAny_len_pos a⟩
+    simp only [decodeS, decodeAny_encodeAny a r d f' hconf (by omega)]
   | _ => simp [Schema.inFragment] at hs
 
 
@@ -1397,7 +1414,7 @@ theorem rt_all (ok : CertOracle) (g : Nat) : RtS ok g ∧ RtL ok g ∧ RtF ok g 
     · intro s v b r d f _ henc; simp [encodeS] at henc
     · intro e vs b r d f _ henc; simp [encodeList] at henc
     · intro fs vs cnt b r d f _ _ henc; simp [encodeFields] at henc
-    · intro ks vs ps es r d F acc _ _ henc; simp [encodeMapPairs] at henc
+    · intro ks vs ps es r d F acc _ _ _ henc; simp [encodeMapPairs] at henc
   | succ g ih =>
     obtain ⟨hS, hL, hF, hM⟩ := ih
     exact ⟨rtS_step ok g hS hL hF hM, rtL_step ok g hS hL, rtF_step ok g hS hF, rtM_step ok g hS hM⟩
